@@ -7,3 +7,6 @@ import Refine.Model.CellTopo
 import Refine.Model.Geom
 import Refine.Lemmas.ScalarReal
 import Refine.Props.C15
+import Refine.Model.Endian
+import Refine.Gen.Endian
+import Refine.Props.C08Endian
